@@ -224,3 +224,163 @@ Proof.
     rewrite (foreign_padding_inert_lemma (m_ns r0) pre post s (Hf s Hin)).
     destruct (verify_wildcard (fun nc => e_wild E (m_id r0) (denial_records (filter_zone (m_ns r0) s)) nc s) (m_ans r0) true) as [sec [e|]]; reflexivity.
 Qed.
+
+(* ---- the general form: any foreign padding (RRSIGs included), with or without a DNAME leg ---- *)
+Definition vsim (a b : bool * option err) : Prop := fst a = fst b /\ (snd a = None <-> snd b = None).
+
+Lemma vsim_refl a : vsim a a. Proof. split; [reflexivity|tauto]. Qed.
+Lemma vsim_some b e b' e' : vsim (b, Some e) (b', Some e') -> vsim (false, Some e) (false, Some e').
+Proof. intros _. split; [reflexivity|split; discriminate]. Qed.
+
+Lemma verify_rrsig_vsim nrank now signer keys ans ns pre post :
+  foreign signer (pre ++ post) ->
+  vsim (verify_rrsig nrank now signer keys ans (pre ++ ns ++ post)) (verify_rrsig nrank now signer keys ans ns).
+Proof.
+  intros Hf. destruct (verify_rrsig_ignores_foreign_authority_lemma nrank now signer keys ans ns pre post Hf) as (H1 & H2 & _).
+  split; assumption.
+Qed.
+
+(* the tail of verifyDNSSEC / verifyRootKeys maps similar signature verdicts to similar results *)
+Lemma tail3_vsim (P Q : bool * option err) : vsim P Q ->
+  vsim (match P with (_, Some e) => (false, Some e) | (false, None) => (false, None) | (true, None) => (true, None) end)
+       (match Q with (_, Some e) => (false, Some e) | (false, None) => (false, None) | (true, None) => (true, None) end).
+Proof.
+  destruct P as [[|] [e|]], Q as [[|] [e'|]]; intros [H1 H2]; cbn in *; try discriminate;
+    try (exfalso; destruct H2 as [H2a H2b]; first [specialize (H2a eq_refl); discriminate | specialize (H2b eq_refl); discriminate]);
+    first [apply vsim_refl | split; [reflexivity|split; discriminate]].
+Qed.
+Lemma tail2_vsim (P Q : bool * option err) : vsim P Q ->
+  vsim (match P with (_, Some e) => (false, Some e) | (_, None) => (true, None) end)
+       (match Q with (_, Some e) => (false, Some e) | (_, None) => (true, None) end).
+Proof.
+  destruct P as [[|] [e|]], Q as [[|] [e'|]]; intros [H1 H2]; cbn in *; try discriminate;
+    try (exfalso; destruct H2 as [H2a H2b]; first [specialize (H2a eq_refl); discriminate | specialize (H2b eq_refl); discriminate]);
+    first [apply vsim_refl | split; [reflexivity|split; discriminate]].
+Qed.
+
+Ltac same_scrutinee :=
+  repeat match goal with
+         | |- vsim (match ?x with _ => _ end) (match ?x with _ => _ end) => destruct x
+         | |- vsim ?a ?a => apply vsim_refl
+         end.
+
+Lemma verify_dnssec_vsim E s resp ds pre post :
+  foreign s (pre ++ post) ->
+  vsim (verify_dnssec E s (pad_ns resp pre post) ds) (verify_dnssec E s resp ds).
+Proof.
+  intros Hf.
+  assert (Hrr : forall keys, vsim (verify_rrsig (e_nrank E) (e_now E) s keys (m_ans resp) (pre ++ m_ns resp ++ post))
+                                  (verify_rrsig (e_nrank E) (e_now E) s keys (m_ans resp) (m_ns resp)))
+    by (intros; apply verify_rrsig_vsim; assumption).
+  unfold verify_dnssec, verify_root_keys, keys_of_msg, dnskey_part, pad_ns.
+  cbn [m_qtype m_qname m_ans m_ns m_id].
+  destruct ((m_qtype resp =? T_DNSKEY) && name_eqb (m_qname resp) s) eqn:Eo; cbn [andb]; cbv zeta.
+  - destruct s as [|l s'].
+    + same_scrutinee; try apply vsim_refl; try (apply tail2_vsim; apply Hrr); try (apply tail3_vsim; apply Hrr).
+    + cbn [m_ans]. same_scrutinee; try apply vsim_refl; try (apply tail3_vsim; apply Hrr); try (apply tail2_vsim; apply Hrr).
+  - destruct (e_key E s) as [i|km]; [apply vsim_refl|].
+    same_scrutinee; try apply vsim_refl; try (apply tail3_vsim; apply Hrr); try (apply tail2_vsim; apply Hrr).
+Qed.
+
+Definition ssim (a b : settle) : Prop :=
+  match a, b with SFail _, SFail _ => True | _, _ => a = b end.
+Lemma ssim_refl a : ssim a a. Proof. destruct a; cbn; auto. Qed.
+
+Lemma signer_loop_ssim E qname resp pds zone pre post signers : forall last last',
+  (forall s, In s signers -> foreign s (pre ++ post)) ->
+  ssim (signer_loop E qname (pad_ns resp pre post) pds zone signers last) (signer_loop E qname resp pds zone signers last').
+Proof.
+  induction signers as [|s rest IH]; intros last last' Hf; [cbn; exact I|].
+  cbn [signer_loop].
+  assert (IH' : forall l l', ssim (signer_loop E qname (pad_ns resp pre post) pds zone rest l) (signer_loop E qname resp pds zone rest l')).
+  { intros l l'. apply IH. intros s' Hs'. apply Hf. right. exact Hs'. }
+  destruct (validate_signer s qname); [apply IH'|].
+  destruct (find_ds E (Some s) qname pds false) as [e|[|d ds]]; [apply IH'| |].
+  - match goal with |- ssim (if ?c then _ else _) _ => destruct c end; [apply IH'|apply ssim_refl].
+  - destruct (verify_dnssec_vsim E s resp (d :: ds) pre post (Hf s (or_introl eq_refl))) as [H1 H2].
+    destruct (verify_dnssec E s (pad_ns resp pre post) (d :: ds)) as [ok [e|]], (verify_dnssec E s resp (d :: ds)) as [ok' [e'|]]; cbn in H1, H2.
+    + apply IH'.
+    + exfalso. destruct H2 as [_ H2]. specialize (H2 eq_refl). discriminate.
+    + exfalso. destruct H2 as [H2 _]. specialize (H2 eq_refl). discriminate.
+    + subst ok'. apply ssim_refl.
+Qed.
+
+Lemma filter_zone_pad ns pre post s :
+  foreign s (pre ++ post) -> filter_zone (pre ++ ns ++ post) s = filter_zone ns s.
+Proof.
+  intros Hf. apply foreign_app in Hf as [Hp Hq]. unfold filter_zone. rewrite !filter_app.
+  set (P := fun r : rr => in_zone (r_owner r) s && match r_rd r with RdNsec nx => in_zone nx s | _ => true end).
+  assert (HP : forall r, P r = true -> in_zone (r_owner r) s = true) by (intros r H; apply andb_true_iff in H as [H _]; exact H).
+  rewrite (filter_foreign_nil s P pre HP Hp), (filter_foreign_nil s P post HP Hq), app_nil_r. reflexivity.
+Qed.
+
+(* two outcomes agree for the client: both are refusals (SERVFAIL either way; only the name of the error may differ), or
+   both are the same reply — question, rcode, answer section, AD bit — and any difference in the authority section is
+   confined to a reply that carries NO AD *)
+Definition osim (a b : outcome) : Prop :=
+  match a, b with
+  | Fail _, Fail _ => True
+  | Accept ma, Accept mb =>
+      m_id ma = m_id mb /\ m_qname ma = m_qname mb /\ m_qtype ma = m_qtype mb /\ m_rcode ma = m_rcode mb /\
+      m_ans ma = m_ans mb /\ m_ad ma = m_ad mb /\ (m_ns ma = m_ns mb \/ m_ad mb = false)
+  | _, _ => False
+  end.
+
+Definition rsim (a b : res msg) : Prop :=
+  match a, b with
+  | Er _, Er _ => True
+  | Ok ma, Ok mb =>
+      m_id ma = m_id mb /\ m_qname ma = m_qname mb /\ m_qtype ma = m_qtype mb /\ m_rcode ma = m_rcode mb /\
+      m_ans ma = m_ans mb /\ m_ad ma = m_ad mb /\ (m_ns ma = m_ns mb \/ m_ad mb = false)
+  | _, _ => False
+  end.
+
+Theorem answer_foreign_padding_general_lemma E qname qtype cd resp pre post pds zone :
+  (forall s, In s (find_signers (e_nrank E) (m_ans (bailiwick zone resp)) qname true) -> foreign s (pre ++ post)) ->
+  m_ad resp = false ->
+  osim (validate_answer E qname qtype cd (pad_ns resp pre post) pds zone) (validate_answer E qname qtype cd resp pds zone).
+Proof.
+  intros Hf Had0. unfold validate_answer.
+  change (bailiwick zone (pad_ns resp pre post)) with (pad_ns (bailiwick zone resp) pre post).
+  assert (Had : m_ad (bailiwick zone resp) = false) by exact Had0.
+  set (r0 := bailiwick zone resp) in *.
+  unfold validate_answer_core.
+  change (dname_target (pad_ns r0 pre post)) with (dname_target r0).
+  set (tgt := if qtype =? T_CNAME then None else match dname_target r0 with None => None | Some t => Some (e_dname E t qtype cd) end).
+  destruct tgt as [[i|t]|] eqn:Et; [exact I| |].
+  all: change (m_ans (pad_ns r0 pre post)) with (m_ans r0).
+  all: match goal with
+       | |- osim (match ?vp with Er _ => _ | Ok _ => _ end) (match ?v with Er _ => _ | Ok _ => _ end) =>
+           assert (Hv : rsim vp v)
+       end.
+  1,3: (destruct cd; [cbn; repeat split; auto|];
+        destruct (e_dnssec E && match e_anchors E with [] => true | _ => false end); [exact I|];
+        destruct (find_signers (e_nrank E) (m_ans r0) qname true) as [|s0 sl] eqn:Es;
+        [destruct (is_zone_secure E qname pds zone && negb (proven_insecure_delegation E zone qname pds)); [exact I|cbn; repeat split; auto]|];
+        pose proof (signer_loop_ssim E qname r0 pds zone pre post (s0 :: sl) None None Hf) as Hl;
+        destruct (signer_loop E qname (pad_ns r0 pre post) pds zone (s0 :: sl) None) as [e| |ok s] eqn:Elp,
+                 (signer_loop E qname r0 pds zone (s0 :: sl) None) as [e'| |ok' s'] eqn:El; cbn in Hl; try discriminate; try exact I;
+        [cbn; repeat split; auto|];
+        injection Hl as -> ->;
+        destruct ok'; [|cbn; repeat split; auto];
+        apply signer_loop_verified in El as (Hin & _);
+        change (m_ns (pad_ns r0 pre post)) with (pre ++ m_ns r0 ++ post);
+        change (m_id (pad_ns r0 pre post)) with (m_id r0);
+        rewrite (filter_zone_pad (m_ns r0) pre post s' (Hf s' Hin));
+        destruct (verify_wildcard (fun nc => e_wild E (m_id r0) (denial_records (filter_zone (m_ns r0) s')) nc s') (m_ans r0) true) as [sec [e|]];
+        [exact I|cbn; repeat split; auto]).
+  - (* a DNAME leg *)
+    match goal with |- osim (match ?vp with Er _ => _ | Ok _ => _ end) (match ?v with Er _ => _ | Ok _ => _ end) =>
+      destruct vp as [ep|rp], v as [e|r]; cbn in Hv; try contradiction; try exact I end.
+    destruct Hv as (H1 & H2 & H3 & H4 & H5 & H6 & H7).
+    destruct (m_rcode t =? RC_SERVFAIL); [exact I|]. cbv zeta.
+    destruct (m_rcode t =? RC_NXDOMAIN).
+    + cbn. rewrite H1, H2, H3, H5, H6. repeat split; auto.
+    + destruct (m_ans t); cbn; rewrite H1, H2, H3, H5, H6; repeat split; auto.
+      destruct H7 as [H7|H7]; [left; rewrite H7; reflexivity|right].
+      destruct cd; [exact H7|rewrite H7; reflexivity].
+  - match goal with |- osim (match ?vp with Er _ => _ | Ok _ => _ end) (match ?v with Er _ => _ | Ok _ => _ end) =>
+      destruct vp as [ep|rp], v as [e|r]; cbn in Hv; try contradiction; try exact I end.
+    destruct Hv as (H1 & H2 & H3 & H4 & H5 & H6 & H7).
+    cbn. rewrite H1, H2, H3, H4, H5, H6. repeat split; auto.
+Qed.
